@@ -32,16 +32,18 @@ Definition thread_ok (s : state) (t : tid) (th : thread) : Prop :=
   | _ => True
   end.
 
+(* an event is faithful: when it was published, the disk held an entry that matches it ([Spec.event_matches]: same
+   kind, same transaction id, for a revert the same reverted transaction) and that is the publisher's own entry or
+   the entry stored under the publisher's idempotency key (a replay: the key is answered again only when the stored
+   entry IS the outcome of the request, [is_outcome_of]); the publisher is a non-preview request of the event's kind
+   and the event names the transaction the request asked to revert *)
 Definition ev_ok (s : state) (ev : event) : Prop :=
   (ev_persisted ev <= length (persisted s))%nat /\
   exists e th, In e (firstn (ev_persisted ev) (persisted s)) /\
     get_thread (threads s) (ev_tid ev) = Some th /\ rq_dry (t_req th) = false /\
     ev_kind ev = rq_kind (t_req th) /\ ev_reverted ev = rev_of (t_req th) /\
-    ((e_owner e = ev_tid ev /\ same_kind (e_kind e) (ev_kind ev) = true /\ e_txid e = ev_txid ev /\
-      e_reverts e = ev_reverted ev) \/
-     (e_ik e <> 0%N /\ rq_ik (t_req th) = e_ik e /\
-      ((same_kind (e_kind e) (ev_kind ev) = true /\ e_txid e = ev_txid ev) \/
-       (same_kind (e_kind e) (ev_kind ev) = false /\ is_tx_kind (ev_kind ev) = false /\ ev_txid ev = None)))).
+    event_matches ev e /\
+    (e_owner e = ev_tid ev \/ (e_ik e <> 0%N /\ rq_ik (t_req th) = e_ik e)).
 
 Record Inv (s : state) : Prop := {
   inv_uid_lt : forall x, known s x -> (e_uid x < v_uid s)%nat;
@@ -95,11 +97,12 @@ Lemma ev_ok_mono : forall s s' ev b,
      exists th', get_thread (threads s') w = Some th' /\ t_req th' = t_req th) ->
   ev_ok s ev -> ev_ok s' ev.
 Proof.
-  intros s s' ev b Hp Hth (Hle & e & th & H1 & H2 & H3 & H4 & H5 & H8).
+  intros s s' ev b Hp Hth (Hle & e & th & H1 & H2 & H3 & H4 & H5 & H6 & H8).
   split; [rewrite Hp, app_length; lia|].
   destruct (Hth _ _ H2) as (th' & G1 & G2).
   exists e, th'. rewrite G2. rewrite Hp, e3_firstn_app_le by exact Hle.
-  repeat split; auto.
+  split; [exact H1|]. split; [exact G1|]. split; [exact H3|]. split; [exact H4|]. split; [exact H5|].
+  split; [exact H6|exact H8].
 Qed.
 
 (* ---- the generic preservation lemma for a step of thread [t] (start or resume) ------------------------------- *)
@@ -266,38 +269,34 @@ Proof.
   intros s s' t th th' e x Hp Hg Hr Hd (E1 & E2 & E3 & E4) Hin Hx.
   split; simpl; [rewrite Hp; lia|].
   exists e, th'. rewrite Hp, Hr. split; [apply in_firstn_all; exact Hin|]. repeat split; auto.
-  left. repeat split; auto.
-  - rewrite E2. apply same_kind_refl.
-  - congruence.
+  - simpl. rewrite E2. apply same_kind_refl.
+  - simpl. congruence.
 Qed.
 
+(* what [is_outcome_of] says of the stored entry *)
+Lemma is_outcome_of_spec : forall rq e, is_outcome_of rq e = true ->
+  same_kind (e_kind e) (rq_kind rq) = true /\ (rq_kind rq = KRevert -> e_reverts e = Some (rq_revert rq)).
+Proof.
+  intros rq e H. unfold is_outcome_of in H.
+  destruct (rq_kind rq) eqn:Hk, (e_kind e) eqn:He; try discriminate H; (split; [reflexivity|]); intros Hr; try discriminate Hr.
+  destruct (e_reverts e) as [x|]; [|discriminate H]. apply Nat.eqb_eq in H. subst x. reflexivity.
+Qed.
+
+(* a replay: the key is answered again, and published again, only for an entry that is the outcome of the request *)
 Lemma ev_ok_replay : forall s s' t th th' e,
   persisted s' = persisted s -> get_thread (threads s') t = Some th' -> t_req th' = t_req th ->
   rq_dry (t_req th) = false -> In e (persisted s) -> e_ik e = rq_ik (t_req th) -> rq_ik (t_req th) <> 0%N ->
-  same_kind (e_kind e) (rq_kind (t_req th)) = true ->
+  is_outcome_of (t_req th) e = true ->
   ev_ok s' {| ev_tid := t; ev_kind := rq_kind (t_req th); ev_txid := e_txid e;
               ev_reverted := match rq_kind (t_req th) with KRevert => Some (rq_revert (t_req th)) | _ => None end;
               ev_persisted := length (persisted s) |}.
 Proof.
   intros s s' t th th' e Hp Hg Hr Hd Hin Hik Hnz Hk.
+  destruct (is_outcome_of_spec _ _ Hk) as [Hsk Hrev].
   split; simpl; [rewrite Hp; lia|].
   exists e, th'. rewrite Hp, Hr. split; [apply in_firstn_all; exact Hin|]. repeat split; auto.
-  right. split; [congruence|]. split; [congruence|]. left. auto.
-Qed.
-
-(* a metadata request replaying a key stored by another kind of write: success and an event, nothing written *)
-Lemma ev_ok_cross : forall s s' t th th' e,
-  persisted s' = persisted s -> get_thread (threads s') t = Some th' -> t_req th' = t_req th ->
-  rq_dry (t_req th) = false -> In e (persisted s) -> e_ik e = rq_ik (t_req th) -> rq_ik (t_req th) <> 0%N ->
-  same_kind (e_kind e) (rq_kind (t_req th)) = false -> is_tx_kind (rq_kind (t_req th)) = false ->
-  ev_ok s' {| ev_tid := t; ev_kind := rq_kind (t_req th); ev_txid := None;
-              ev_reverted := match rq_kind (t_req th) with KRevert => Some (rq_revert (t_req th)) | _ => None end;
-              ev_persisted := length (persisted s) |}.
-Proof.
-  intros s s' t th th' e Hp Hg Hr Hd Hin Hik Hnz Hk Htx.
-  split; simpl; [rewrite Hp; lia|].
-  exists e, th'. rewrite Hp, Hr. split; [apply in_firstn_all; exact Hin|]. repeat split; auto.
-  right. split; [congruence|]. split; [congruence|]. right. auto.
+  - simpl. intros Hkr. rewrite Hkr. apply Hrev. exact Hkr.
+  - right. split; congruence.
 Qed.
 
 Ltac new_entry_tac :=
@@ -320,18 +319,9 @@ Proof.
   all: try solve [new_entry_tac].
   - (* replay *)
     unfold thread_ok in Hok; rewrite Heqp in Hok; destruct Hok as (Hk & Hin & Hik & Hnz).
-    rewrite e3_same_kind_match in Heqb0.
     destruct (rq_dry (t_req t0)) eqn:Hdry; [left; reflexivity|].
     right. eexists. split; [reflexivity|]. split; [reflexivity|]. fin_tac.
     eapply ev_ok_replay with (th := t0) (e := e);
-      [reflexivity | e3_cbn; apply e3_get_set_same | reflexivity | assumption ..].
-  - e3_cbn. intros x Hr Hd. right. rewrite Hd. eexists. split; [apply in_or_app; right; left; reflexivity|reflexivity].
-  - (* metadata request, key stored by another kind of write *)
-    unfold thread_ok in Hok; rewrite Heqp in Hok; destruct Hok as (Hk & Hin & Hik & Hnz).
-    rewrite e3_same_kind_match in Heqb0.
-    destruct (rq_dry (t_req t0)) eqn:Hdry; [left; reflexivity|].
-    right. eexists. split; [reflexivity|]. split; [reflexivity|]. fin_tac.
-    eapply ev_ok_cross with (th := t0) (e := e);
       [reflexivity | e3_cbn; apply e3_get_set_same | reflexivity | assumption ..].
   - e3_cbn. intros x Hr Hd. right. rewrite Hd. eexists. split; [apply in_or_app; right; left; reflexivity|reflexivity].
   - e3_cbn. intros x [K|(b & Hb & K)].
@@ -596,56 +586,30 @@ Proof.
   rewrite E, Hg in G. inversion G; subst th'. destruct Hr as [Hr|Hr]; rewrite Hr in Hr'; discriminate Hr'.
 Qed.
 
-(* what holds unconditionally: every event was published by a non-preview request of the event's kind when an
-   entry was already on disk that is either
-   - the publisher's own: same kind, same transaction id, same reverted id; or
-   - the entry stored under the publisher's idempotency key (replay): then either it has the event's kind and
-     transaction id (the event names the transaction the REQUEST asked to revert), or it is of ANOTHER kind, the
-     publisher is a metadata write and the event carries no transaction id (nothing was written for it) *)
-Definition events_after_persist_weak (s : state) : Prop :=
-  forall ev, In ev (published s) ->
-    (ev_persisted ev <= length (persisted s))%nat /\
-    exists e th, In e (firstn (ev_persisted ev) (persisted s)) /\
-      get_thread (threads s) (ev_tid ev) = Some th /\ rq_dry (t_req th) = false /\
-      ev_kind ev = rq_kind (t_req th) /\
-      ev_reverted ev = match rq_kind (t_req th) with KRevert => Some (rq_revert (t_req th)) | _ => None end /\
-      ((e_owner e = ev_tid ev /\ same_kind (e_kind e) (ev_kind ev) = true /\ e_txid e = ev_txid ev /\
-        e_reverts e = ev_reverted ev) \/
-       (e_ik e <> 0%N /\ rq_ik (t_req th) = e_ik e /\
-        ((same_kind (e_kind e) (ev_kind ev) = true /\ e_txid e = ev_txid ev) \/
-         (same_kind (e_kind e) (ev_kind ev) = false /\ is_tx_kind (ev_kind ev) = false /\ ev_txid ev = None)))).
+(* THE FULL STATEMENT (Spec.events_after_persist), unconditionally: every event was published when an entry was
+   already on disk that matches it -- same kind, same transaction id, for a revert the SAME reverted transaction --
+   and that is the publisher's own or is stored under the publisher's idempotency key.  (Before the repair of
+   executionContext.run the replay did not compare the request with the stored outcome and this was false for a key
+   reused by a revert of another transaction or by a metadata write; now such a request is refused, [EKeyReused].) *)
+Theorem e3_after_persist : forall s, reachable s -> events_after_persist s.
+Proof.
+  intros s R ev Hin.
+  destruct (inv_ev s (inv_reachable s R) ev Hin) as (Hle & e & th & H1 & H2 & H3 & H4 & H5 & H6 & H7).
+  split; [exact Hle|]. exists e. split; [exact H1|]. split; [exact H6|].
+  destruct H7 as [Ho|(Hnz & Hik)]; [left; exact Ho|right; split; [exact Hnz|exists th; auto]].
+Qed.
 
-Theorem e3_after_persist_weak : forall s, reachable s -> events_after_persist_weak s.
-Proof. intros s R ev Hin. exact (inv_ev s (inv_reachable s R) ev Hin). Qed.
-
-(* the earlier, stronger reading -- "an entry of the same kind and transaction id was on disk" -- which the
-   cross-kind replay of a metadata write refutes *)
-Definition events_after_persist_samekind (s : state) : Prop :=
-  forall ev, In ev (published s) ->
-    (ev_persisted ev <= length (persisted s))%nat /\
-    exists e, In e (firstn (ev_persisted ev) (persisted s)) /\
-      same_kind (e_kind e) (ev_kind ev) = true /\ e_txid e = ev_txid ev.
-
-(* the exclusions. 1: no idempotency key that is stored on a revert entry is reused by a (non-preview) revert
-   request naming a different transaction *)
-Definition ik_revert_consistent_b (s : state) : bool :=
-  forallb (fun p =>
-    let q := t_req (snd p) in
-    match rq_kind q with
-    | KRevert =>
-        rq_dry q || N.eqb (rq_ik q) 0 ||
-        forallb (fun e => negb (N.eqb (e_ik e) (rq_ik q)) ||
-                          match e_kind e with
-                          | KRevert => match e_reverts e with Some x => Nat.eqb x (rq_revert q) | None => false end
-                          | _ => true
-                          end) (persisted s)
-    | _ => true
-    end) (threads s).
-(* 2: no idempotency key is reused by a request of another kind than the entry stored under it *)
-Definition ik_kind_consistent_b (s : state) : bool :=
-  forallb (fun p => let rq := t_req (snd p) in
-    N.eqb (rq_ik rq) 0 ||
-    forallb (fun e => negb (N.eqb (e_ik e) (rq_ik rq)) || same_kind (e_kind e) (rq_kind rq)) (persisted s)) (threads s).
+(* what the invariant says besides: the publisher of an event is a non-preview request of the event's kind, and the
+   reverted transaction the event names is the one the request named *)
+Theorem e3_event_of_request : forall s, reachable s -> forall ev, In ev (published s) ->
+  exists th, get_thread (threads s) (ev_tid ev) = Some th /\ rq_dry (t_req th) = false /\
+    ev_kind ev = rq_kind (t_req th) /\
+    ev_reverted ev = match rq_kind (t_req th) with KRevert => Some (rq_revert (t_req th)) | _ => None end.
+Proof.
+  intros s R ev Hin.
+  destruct (inv_ev s (inv_reachable s R) ev Hin) as (_ & e & th & _ & H2 & H3 & H4 & H5 & _).
+  exists th. auto.
+Qed.
 
 Lemma e3_get_thread_in : forall l t th, get_thread l t = Some th -> In (t, th) l.
 Proof.
@@ -653,39 +617,6 @@ Proof.
   destruct (Nat.eqb t u) eqn:E.
   - apply Nat.eqb_eq in E. inversion H; subst. left; reflexivity.
   - right. apply IH. exact H.
-Qed.
-
-Lemma e3_in_firstn : forall (A : Type) n (l : list A) x, In x (firstn n l) -> In x l.
-Proof. intros A n l x H. rewrite <- (firstn_skipn n l). apply in_or_app. left. exact H. Qed.
-
-Theorem e3_after_persist_partial : forall s, reachable s ->
-  ik_revert_consistent_b s = true -> ik_kind_consistent_b s = true -> events_after_persist s.
-Proof.
-  intros s R Hc Hkc ev Hin.
-  destruct (inv_ev s (inv_reachable s R) ev Hin) as (Hle & e & th & H1 & H2 & H3 & H4 & H5 & H8).
-  split; [exact Hle|]. exists e. split; [exact H1|].
-  destruct H8 as [(Ho & H6 & H7 & Hr)|(Hnz & Hik & Hcase)].
-  - split; [|left; exact Ho]. repeat split; auto.
-  - split; [|right; split; [exact Hnz|exists th; auto]].
-    assert (Hsk : same_kind (e_kind e) (ev_kind ev) = true).
-    { unfold ik_kind_consistent_b in Hkc. rewrite forallb_forall in Hkc.
-      specialize (Hkc _ (e3_get_thread_in _ _ _ H2)). cbn [snd] in Hkc.
-      destruct (N.eqb (rq_ik (t_req th)) 0) eqn:E0.
-      - apply N.eqb_eq in E0. congruence.
-      - cbn [orb] in Hkc. rewrite forallb_forall in Hkc. specialize (Hkc e (e3_in_firstn _ _ _ _ H1)).
-        rewrite Hik, N.eqb_refl in Hkc. cbn [negb orb] in Hkc. rewrite H4. exact Hkc. }
-    destruct Hcase as [(H6 & H7)|(H6 & _)]; [|congruence].
-    split; [exact H6|]. split; [exact H7|]. intros Hk.
-    unfold ik_revert_consistent_b in Hc. rewrite forallb_forall in Hc.
-    specialize (Hc _ (e3_get_thread_in _ _ _ H2)). cbn [snd] in Hc.
-    rewrite H5. unfold rev_of. rewrite <- H4, Hk. rewrite <- H4, Hk in Hc.
-    rewrite H3 in Hc. cbn [orb] in Hc.
-    destruct (N.eqb (rq_ik (t_req th)) 0) eqn:E0.
-    + apply N.eqb_eq in E0. congruence.
-    + cbn [orb] in Hc. rewrite forallb_forall in Hc. specialize (Hc e (e3_in_firstn _ _ _ _ H1)).
-      rewrite Hik, N.eqb_refl in Hc. cbn [negb orb] in Hc.
-      rewrite Hk in H6. destruct (e_kind e); try discriminate H6.
-      destruct (e_reverts e) as [x|]; [|discriminate Hc]. apply Nat.eqb_eq in Hc. congruence.
 Qed.
 
 (* an executable necessary condition of [events_after_persist], for refutations by computation *)
@@ -706,17 +637,6 @@ Proof.
   apply existsb_exists. exists e. split; [exact He|].
   unfold ev_match_b. rewrite M1, M2, onat_eq_refl. cbn [andb].
   destruct (ev_kind ev); try reflexivity. rewrite M3 by reflexivity. apply onat_eq_refl.
-Qed.
-
-(* executable necessary condition of [events_after_persist_samekind] *)
-Definition eap_samekind_b (s : state) : bool :=
-  forallb (fun ev => existsb (fun e => same_kind (e_kind e) (ev_kind ev) && onat_eq (e_txid e) (ev_txid ev))
-                             (firstn (ev_persisted ev) (persisted s))) (published s).
-Lemma eap_samekind_b_sound : forall s, events_after_persist_samekind s -> eap_samekind_b s = true.
-Proof.
-  intros s H. unfold eap_samekind_b. apply forallb_forall. intros ev Hin.
-  destruct (H ev Hin) as (_ & e & He & M1 & M2).
-  apply existsb_exists. exists e. split; [exact He|]. rewrite M1, M2, onat_eq_refl. reflexivity.
 Qed.
 
 (* a preview has published: executable witness against [no_event_for_preview] *)
